@@ -82,9 +82,10 @@ type OptSpec struct {
 	ArgName     string   `json:"arg_name,omitempty"`
 	Suggested   []string `json:"suggested,omitempty"`
 	Valid       []string `json:"valid,omitempty"`
-	DynValues   []string `json:"dyn_values,omitempty"` // returned (prefix-filtered) by a SuggestedValuesFn
-	UseVar      bool     `json:"use_var,omitempty"`    // define through the *Var form
-	SetCalled   bool     `json:"set_called,omitempty"` // opt.SetCalled(true) modifier
+	DynValues   []string `json:"dyn_values,omitempty"`  // returned (prefix-filtered) by a SuggestedValuesFn
+	UseVar      bool     `json:"use_var,omitempty"`     // define through the *Var form
+	SetCalled   bool     `json:"set_called,omitempty"`  // opt.SetCalled(true) modifier
+	AliasSplit  bool     `json:"alias_split,omitempty"` // one Alias() modifier per alias instead of a single call
 }
 
 // Keys returns the primary name followed by the aliases.
